@@ -8,6 +8,7 @@ import random
 
 from .. import diff, runner, upstream
 from ..gen.progs import ProgGen
+from ..gen import idioms
 from ..model import ast as A
 from . import common
 
@@ -15,7 +16,8 @@ PROPERTY = 'C01'
 RULE = ('grammar-directed random programs (profiles sequential/deep: 1-5 functions, side-effecting calls in operand '
         'positions, global shadowing, by-reference arrays, recursion, entry-point arguments), each run at word sizes '
         '2,3,4 (8 on a sample) x generous stack + 2 tight stacks; a case is one (program, args); non-trivial = the '
-        'model executed >= 1 user call and the committed output has >= 20 bytes; distinct by hash of (source, args)')
+        'model executed >= 1 user call and the committed output has >= 20 bytes; distinct by hash of (source, args); plus the enumerated idiom grids of gen/idioms.py '
+        '(204 scoping/shadowing programs, 96 left-operand x right-operand programs, 448 value-capture programs, 12 programs of coinciding constant tables), each with 2-3 argument vectors')
 ASSUMPTIONS = common.ISA_ASSUMPTIONS
 REQUIRED_HIDC_FUNCTIONS = ['codegen/generator:CodeGen.eval_expr', 'codegen/generator:CodeGen.eval_func_call', 'codegen/generator:CodeGen.lookup_var']     # M-COV: deciding code never entered => inconclusive
 MIN_NONTRIVIAL = {'quick': 100, 'thorough': 1000}
@@ -26,6 +28,8 @@ def plan(tier, seed):
     n, per = (16, 36) if tier == 'quick' else (64, 110)
     specs = [{'kind': 'gen', 'seed': s, 'count': per, 'tier': tier} for s in common.shard_seeds(seed, n)]
     specs.append({'kind': 'upstream'})
+    parts = 8 if tier == 'quick' else 16
+    specs += [{'kind': 'idioms', 'part': i, 'parts': parts, 'tier': tier} for i in range(parts)]
     return specs
 
 
@@ -79,6 +83,35 @@ def check_program(res, prog, args, rng, tier, tag):
         res['samples'].append({'source': src[:1500], 'args': args, 'model': ref.brief() if ref else None})
 
 
+def check_idiom(res, prog, argsets, tier, tag, k):
+    """generous stack only; quick tier pairs argument vectors with word sizes round-robin, thorough runs the product"""
+    src = A.render(prog)
+    words = common.WORDS_ALL
+    if tier == 'quick':
+        pairs = [(argsets[(k + j) % len(argsets)], words[j % len(words)]) for j in range(max(len(argsets), len(words)))]
+    else:
+        pairs = [(a, w) for a in argsets for w in words]
+    for args, word in pairs:
+        res['evaluations'] += 1
+        ref, why = diff.model_run(prog, args, word)
+        run = diff.compile_and_run(src, args, word=word, stack=diff.GENEROUS_STACK, max_steps=MAX_STEPS)
+        case = diff.case_dict(src, args, word, diff.GENEROUS_STACK, gen='idiom:' + tag)
+        if run.kind != 'ok':
+            runner.fail(res, {'reject': 'M-DIFF', 'internal': 'M-EXC', 'asm': 'M-ASM'}[run.kind], f'idiom {tag}: {run.kind}: {run.detail}', case)
+            return
+        o = run.outcome
+        common.side_observe(res, run)
+        if ref is None or o.klass == 'TIMEOUT':
+            runner.count(res, 'model_skips' if ref is None else 'vm_timeouts')
+            continue
+        msg = diff.compare_streams(ref, o)
+        if msg:
+            runner.fail(res, 'M-DIFF', f'idiom {tag}: {msg}', case, expected=ref.brief(), observed=o.brief())
+            return
+        runner.count(res, 'idiom_agree_' + tag.split('/')[0])
+        res['nontrivial'].append(runner.case_id(src, args, word))
+
+
 def run_shard(spec):
     res = runner.new_result()
     if spec['kind'] == 'upstream':
@@ -90,6 +123,15 @@ def run_shard(spec):
         for name, msg in r['failed'].items():
             runner.fail(res, 'UPSTREAM', f"author's expectation {name} fails on the SVM: {msg}",
                         {'upstream_test': name})
+        return res
+    if spec['kind'] == 'idioms':
+        k = 0
+        for gen, argsets in ((idioms.shadow_programs, idioms.SHADOW_ARGS), (idioms.operand_programs, idioms.OPERAND_ARGS),
+                             (idioms.capture_programs, idioms.CAPTURE_ARGS), (idioms.table_programs, idioms.TABLE_ARGS)):
+            for tag, prog in gen():
+                k += 1
+                if k % spec['parts'] == spec['part']:
+                    check_idiom(res, prog, argsets, spec['tier'], tag, k)
         return res
     rng = random.Random(spec['seed'])
     for i in range(spec['count']):
